@@ -89,6 +89,19 @@ def recv (proto : Proto) (rid : Int) (r : Except Err RespMsg) : Except Err PduRe
   if p.requestId ≠ rid then throw .invalidResponseId
   pure p
 
+/-- what the first exchange of `Client._send` ended with: a decoded answer / a transport error, or
+    a usmStatsNotInTimeWindows report (raised as `NotInTimeWindow` while the message is decoded) -/
+inductive FirstExchange where
+  | answer (r : Except Err RespMsg)
+  | timeWindowReport
+
+/-- `Client._send`: `_send_once`, repeated once — the same PDU, the same request id — after a
+    notInTimeWindow report; whatever the second exchange yields is final -/
+def sendRetry (proto : Proto) (rid : Int) (first : FirstExchange) (second : Except Err RespMsg) : Except Err PduResp :=
+  match first with
+  | .answer r => recv proto rid r
+  | .timeWindowReport => recv proto rid second
+
 def nullBinds (oids : List Oid) : List VarBind := oids.map (·, Val.null)
 
 /-- Every operation performs exactly one read of the request-id clock (`rid`), emits one
